@@ -111,11 +111,19 @@ def check(case, st):
     if len(D0) - (() in D0) >= 1:
         st.nontrivial += 1
     conts = list(gen.SPIN_CONTAINERS if spin else gen.BOOL_CONTAINERS) + ["dictperm", "dictrep"]
-    for cont in conts:
+    if len(D0) >= 2:
+        conts += ["PUSO-rev", "QUSO-rev"] if spin else ["PUBO-rev", "QUBO-rev"]     # same terms, opposite insertion order
+    for cont_ in conts:
+        is_rev = cont_.endswith("-rev")
+        cont = cont_[:-4] if is_rev else cont_
         if cont in gen.DEG2 and deg > 2:
             continue
         for sch in (gen.MATRIX_SCHEMES if cont in gen.MATRIX else gen.LABELLED_SCHEMES):
+            if is_rev and sch not in ("int", "str", "rstr"):
+                continue
             D = gen.relabel(D0, sch, N)
+            if is_rev:
+                D = dict(reversed(list(D.items())))
             labels = gen.labels_for(sch, N)
             M = spell(D, cont, spin) if cont in ("dictperm", "dictrep") else gen.build(cont, D)
             tsrc = rp.tt(D, labels, spin)
